@@ -103,6 +103,11 @@ class Hdf(Harness):
                                                  and str(got.binning.closed) == str(binning.closed))))
             out.append(Check(t + "_edges", got.binning.edges, inp["edges"]))
         out.append(Check("equal_operator", cond=bool(back == cf)))
+        # identical downstream results: sampling the restored container gives the same estimator values
+        if self.P >= 2 and ("rr" not in members or "dr" in members):
+            a, b = cf.sample(), back.sample()
+            out.append(Check("sample_after_roundtrip_data", b.data, a.data))
+            out.append(Check("sample_after_roundtrip_samples", b.samples, a.samples))
         return out
 
 
@@ -172,6 +177,47 @@ class TextFiles(Harness):
                Check("samples", cond=[near(back.samples[k][b], inp["samples"][k][b]) for k in range(self.N) for b in range(self.B)]),
                Check("header_marks_closed_side", cond=(("[z_low" in header[1]) == (closed == "left")))]
         return out
+
+
+class TextSpecial(Harness):
+    """non-finite values (outside the real-number model) through the real text files: concrete sentinels"""
+
+    functions = (misc_mod.format_float_fixed_width, corrdata_mod.write_data, corrdata_mod.load_data)
+    modules = ()
+    xval = False
+    SPECIAL = (float("nan"), float("inf"), float("-inf"), -0.0, 1e-12, -123.456789012)
+
+    def __init__(self):
+        self.name = "text.special_values"
+        self.bounds = "one value or sample replaced by nan / +inf / -inf / -0.0 / tiny / negative; 1-2 bins; class and position chosen by the engine"
+
+    def make_inputs(self, eng):
+        return {"val": eng.choose(len(self.SPECIAL), "value"), "where": eng.choose(2, "data_or_sample"), "bins": 1 + eng.choose(2, "bins"),
+                "cls": eng.choose(3, "class")}
+
+    def concrete_inputs(self, m, inp):
+        return dict(inp)
+
+    def body(self, inp):
+        cls = (CorrData, RedshiftData, HistData)[inp["cls"]]
+        B = inp["bins"]
+        v = self.SPECIAL[inp["val"]]
+        data = 1.0 + np.arange(B)
+        samples = 2.0 + np.arange(3 * B).reshape(3, B)
+        if inp["where"] == 0:
+            data[B - 1] = v
+        else:
+            samples[1, 0] = v
+        obj = cls(conc_binning(B), data, samples)
+        tmp = tempfile.mkdtemp(prefix="c11s_", dir=runner.ROOT + "/scratch")
+        try:
+            obj.to_files(tmp + "/nz")
+            back = cls.from_files(tmp + "/nz")
+        finally:
+            shutil.rmtree(tmp, ignore_errors=True)
+        same = lambda a, b: bool(np.all((np.isnan(a) & np.isnan(b)) | (np.isinf(a) & np.isinf(b) & (np.sign(a) == np.sign(b))) | (np.abs(a - b) <= 1e-6)))
+        return [Check("data", cond=(back.data.shape == data.shape and same(back.data, data))),
+                Check("samples", cond=(back.samples.shape == samples.shape and same(back.samples, samples)))]
 
 
 class FixedWidth(Harness):
@@ -306,7 +352,7 @@ class ConfigYaml(Harness):
 
 
 def harnesses(tier):
-    hs = [Hdf(1, 2), Hdf(2, 1), ConfigYaml(), FixedWidth(), TextFiles(CorrData, 1, 1, vmax=1000), TextFiles(RedshiftData, 2, 2), MetaYaml()]
+    hs = [Hdf(1, 2), Hdf(2, 1), ConfigYaml(), FixedWidth(), TextSpecial(), TextFiles(CorrData, 1, 1, vmax=1000), TextFiles(RedshiftData, 2, 2), MetaYaml()]
     if tier == "thorough":
         hs += [Hdf(2, 2), Hdf(1, 3), TextFiles(HistData, 3, 2), TextFiles(CorrData, 2, 3), TextFiles(CorrData, 1, 2, vmax=1000)]
     hs += [Hdf(1, 2, wrong="swap"), TextFiles(CorrData, 1, 1, wrong="tight")]
